@@ -227,6 +227,7 @@ func (dq *Deque[T]) waitPushAfter(ctx context.Context, it T, afterGetter func() 
 	go func() {
 		<-ctx.Done()
 		verifAt(ctx, "helper.gate", cond)
+		defer adt.With(adt.Lock(dq.mtx))
 		cond.Broadcast()
 		verifAt(ctx, "helper.done", cond)
 	}()
@@ -475,6 +476,7 @@ func (it *element[T]) wait(ctx context.Context, direction dqDirection) error {
 	go func() {
 		<-ctx.Done()
 		verifAt(ctx, "helper.gate", cond)
+		defer adt.With(adt.Lock(it.list.mtx))
 		cond.Broadcast()
 		verifAt(ctx, "helper.done", cond)
 	}()
